@@ -3,6 +3,7 @@
 package groups
 
 import (
+	"errors"
 	"fmt"
 	"math/big"
 
@@ -18,6 +19,9 @@ type Rep struct {
 	C   []ofield.El
 	B   bool
 }
+
+// ErrInputModified is returned by adapters when a call changed its input slices.
+var ErrInputModified = errors.New("verif: the call modified its input slices")
 
 func repBool(b bool) Rep { return Rep{Sys: "bool", B: b} }
 
@@ -39,6 +43,15 @@ type Group struct {
 	Ops                           []Op
 	BatchScalarMul                func(base Rep, scalars []*big.Int) []Rep
 	BatchJacToAff                 func(pts []Rep) []Rep
+
+	// MSM (nil for groups without multiexp): points are referenced by index into a pool set once
+	FrBits           int
+	MSMWindows       []uint64 // window sizes the library itself selects (implementedCs)
+	MSMSetPool       func(pool []Rep)
+	MultiExp         func(idx []int, scalars []*big.Int, nbTasks int, variant string) (Rep, error)
+	Fold             func(idx []int, coeff *big.Int, nbTasks int, variant string) (Rep, error)
+	InnerMsm         func(c uint64, idx []int, scalars []*big.Int, nbTasks int) Rep
+	PartitionScalars func(scalars []*big.Int, c uint64, nbTasks int) []uint16
 
 	// oracle side (filled by Bind)
 	F  *ofield.Fld
